@@ -179,6 +179,9 @@ def oracle(h, out):
         if "exn" in r:
             return "call %d: valid request %s%s raised %s" % (i, m, tuple(pos[:2]), r["exn"])
         got = r["ok"]
+        if "late" in r and r["late"] != r["ok"]:
+            return ("call %d: the data %s(lba=%#x, tl=%d) returned (%d bytes, only the buffer was kept) changed while later commands were issued: "
+                    "it no longer is the data last written" % (i, m, pos[0], pos[1], len(got)))
         if m.startswith("read1"):
             want = []
             for a in range(pos[0], pos[0] + pos[1]):
